@@ -30,12 +30,26 @@ def main():
             shutil.copy(os.path.join(src, f), os.path.join(dst, f))
     patch = os.path.join(dst, 'patch.diff')
     meta = {'property': prop, 'name': name, 'ran': []}
-    if phase == 'check':
-        meta = json.load(open(os.path.join(dst, 'meta.json')))
+    try:
+        old = json.load(open(os.path.join(dst, 'meta.json')))
+        if phase == 'check':
+            meta = old
+        elif 'check' in old:
+            meta['check'] = old['check']
+    except Exception:
+        pass
     if phase in ('confirm', 'all'):
         confirm(meta, dst, patch)
     if phase in ('check', 'all'):
         run_check(meta, prop, patch)
+    try:   # the other phase may have written meanwhile: merge
+        cur = json.load(open(os.path.join(dst, 'meta.json')))
+        if phase == 'check' and cur.get('ran'):
+            meta['ran'] = cur['ran']; meta['patch_applies'] = cur.get('patch_applies'); meta['touched'] = cur.get('touched')
+        if phase == 'confirm' and 'check' in cur:
+            meta['check'] = cur['check']
+    except Exception:
+        pass
     json.dump(meta, open(os.path.join(dst, 'meta.json'), 'w'), indent=1)
     det = meta.get('check', {})
     print(json.dumps({'name': name, 'applies': meta.get('patch_applies'), 'ran': [(r['cmd'], r.get('passed', r.get('result', r.get('fails_as_expected')))) for r in meta['ran']], 'detected': det.get('violation_reported')}, indent=1))
